@@ -482,6 +482,51 @@ func C13(c *ev.Ctx) {
 		}
 	}
 
+	// (2e) the same with names that are different but related (same stem and another extension, one a prefix of the
+	// other, differing in case), all in one directory and all created at the same moment
+	{
+		_ = os.RemoveAll(root)
+		_ = os.MkdirAll(filepath.Join(root, "d"), 0755)
+		fsys := filesys.NewDirFs(root)
+		exts := []string{".idx", ".dat", "", ".log", ".idx.bak", "-x", ".d.e", "_", ".IDX", ".tmpl"}
+		rounds := c.Pick(60, 400)
+		panics, wrong := 0, 0
+		first := ""
+		var mu sync.Mutex
+		for i := 0; i < rounds; i++ {
+			var wg sync.WaitGroup
+			start := make(chan struct{})
+			for g := range exts {
+				wg.Add(1)
+				go func(g int) {
+					defer wg.Done()
+					<-start
+					if catchPanic(func() { fsys.AtomicCreate("d", fmt.Sprintf("t%d%s", i, exts[g]), acData(byte('a'+g), 30+(i*7+g*131)%5000)) }) {
+						mu.Lock()
+						panics++
+						mu.Unlock()
+					}
+				}(g)
+			}
+			close(start)
+			wg.Wait()
+			for g := range exts {
+				nm := fmt.Sprintf("t%d%s", i, exts[g])
+				b, err := os.ReadFile(filepath.Join(root, "d", nm))
+				if err != nil || !bytes.Equal(b, acData(byte('a'+g), 30+(i*7+g*131)%5000)) {
+					wrong++
+					if first == "" {
+						first = fmt.Sprintf("%s: %d bytes, err %v", nm, len(b), err)
+					}
+				}
+			}
+		}
+		evaluations += rounds * len(exts)
+		if panics > 0 || wrong > 0 {
+			c.Violation("atomiccreate.concurrent-related-names", fmt.Sprintf("%d rounds of %d goroutines creating, at the same moment and in one directory, files whose names differ only in their extension / case / a suffix: %d calls panicked, %d files do not hold exactly their data (first: %s): calls for different names disturb each other", rounds, len(exts), panics, wrong, first), nil)
+		}
+	}
+
 	// (3) concurrent creators and readers on DirFs, interleaved at the hooks
 	acConcurrency(c)
 
